@@ -153,7 +153,7 @@ pub fn run(v: %s) -> ([Option<Tok>; %d], [u32; %d], [u8; %d]) {
         %s
         must_reach!("destructured and ledger balanced");
     }
-    tiers! { %s: unwind(20, 20), check(), check(),
+    tiers1! { %s: unwind(20, 20), check(), check(),
         calls("konst::destructure!"), bounds("every payload of the %d token field(s) and %d plain field(s); pattern: %s", "same"), exhaustive }
 """ % (nn, mk_t, mk_p, p["ty"], p["ctor"], "\n        ".join(checks), final, p["name"], n, m, p["inv"].replace('"', "'").replace("konst::destructure!", ""))
     fam.add(p["name"], p["desc"] + ": `" + p["inv"] + "`", plain_src, harness)
